@@ -13,6 +13,7 @@ import struct
 SPEC = os.path.join(os.path.dirname(os.path.dirname(os.path.abspath(__file__))), 'spec')
 
 _blob_cache = {}
+SHAKE = '~0'
 DYNAMIC = {}     # tables built at run time (name -> Table), inherited by forked workers
 
 
@@ -59,7 +60,10 @@ class ZeroFile(object):
 
 class Table(object):
     def __init__(self, d):
-        self.names = d['names']
+        self.names = dict(d['names'])
+        # a name the model checker does not enumerate: the harness appends "add a file that sorts
+        # first" to behaviours (core.shake) - an edit that moves every other file's data
+        self.names.setdefault(SHAKE, {'iso': '0.;1', 'rr': '0', 'jol': '0', 'udf': '0'})
         self.blobs = d['blobs']
         self.targets = d.get('targets', {})
         self.rev = {}
